@@ -55,6 +55,7 @@ const (
 	opGetBad
 	opRemoveBad
 	opExpireBad
+	opTakeover
 )
 
 type op struct {
@@ -63,8 +64,8 @@ type op struct {
 }
 
 func (o op) String() string {
-	n := []string{"get", "write1@T1", "write2@T2", "remove", "expire1h", "removeOldest", "get-wrong-arity", "remove-wrong-arity", "expire-wrong-arity"}[o.k]
-	if o.k == opOldest {
+	n := []string{"get", "write1@T1", "write2@T2", "remove", "expire1h", "removeOldest", "get-wrong-arity", "remove-wrong-arity", "expire-wrong-arity", "taken-over-by-reloaded-declaration"}[o.k]
+	if o.k == opOldest || o.k == opTakeover {
 		return n
 	}
 	return fmt.Sprintf("%s%q", n, o.t)
@@ -92,7 +93,7 @@ func mkOps(arity int) []op {
 			ops = append(ops, op{k, t})
 		}
 	}
-	ops = append(ops, op{opOldest, nil})
+	ops = append(ops, op{opOldest, nil}, op{opTakeover, nil})
 	if arity == 14 {
 		arity = 1
 	}
@@ -400,6 +401,7 @@ func main() {
 		{"text/string/1key", metrics.Text, metrics.String, 1},
 		{"histogram/buckets/1key", metrics.Histogram, metrics.Buckets, 1},
 		{"gauge/int/0key", metrics.Gauge, metrics.Int, 0},
+		{"counter/int/0key", metrics.Counter, metrics.Int, 0},
 		{"timer/int/2key", metrics.Timer, metrics.Int, 2},
 		{"counter/float/2key", metrics.Counter, metrics.Float, 2},
 		{"histogram/buckets/0key", metrics.Histogram, metrics.Buckets, 0},
@@ -428,6 +430,23 @@ func main() {
 					}
 				}
 				wantErr := mo.apply(o)
+				if o.k == opTakeover {
+					// a reload of the program: a freshly compiled metric of the same declaration takes over the
+					// label values through Store.Add (scalar counters and histograms come with their datum
+					// pre-created, as the code generator does); the model is unchanged
+					st := metrics.NewStore()
+					_ = st.Add(real)
+					m2 := newReal(cf)
+					m2.SetSource(real.Source)
+					if len(m2.Keys) == 0 && (cf.kind == metrics.Counter || cf.kind == metrics.Histogram) {
+						_, _ = m2.GetDatum()
+						mo.get([]string{}) // the declaration comes with its (zero) datum
+					}
+					if err := st.Add(m2); err != nil {
+						return seqx.Result{Violation: "take-over failed: " + err.Error(), VKey: cf.name + " takeover-error"}
+					}
+					real = m2
+				}
 				before := len(real.LabelValues)
 				err := realApply(cf, real, o)
 				last := i == len(h)-1
@@ -489,5 +508,5 @@ func main() {
 	c.Set("exhaustive", exh)
 	c.Set("depth_bound", maxDepth)
 	c.Assume = []string{"states are de-duplicated on the model state TOGETHER WITH a reflective dump of the complete real Metric object graph (unexported fields included, pointer identities canonicalised, wall-clock creation stamps masked), so hidden implementation state cannot be merged away", "timestamps are set explicitly (T1<T2) except creation stamps, which read the wall clock and are only classified as 'later than T2'"}
-	c.Finish("explicit-state BFS over operation histories {get, write1@T1, write2@T2, remove, expire, removeOldest, wrong-arity get/remove/expire} on tuples of a small universe, per metric kind/type/arity; every transition executes the real metric and compares enumeration, LabelValues, JSON, errors and slice/index consistency with an ordered-list model; distinct_nontrivial = distinct model states reached")
+	c.Finish("explicit-state BFS over operation histories {get, write1@T1, write2@T2, remove, expire, removeOldest, wrong-arity get/remove/expire, take-over by a reloaded declaration through Store.Add} on tuples of a small universe, per metric kind/type/arity; every transition executes the real metric and compares enumeration, LabelValues, JSON, errors and slice/index consistency with an ordered-list model; distinct_nontrivial = distinct model states reached")
 }
